@@ -21,7 +21,10 @@ RULE = ("One evaluation = one seeded execution of two real Managers (the "
         "pong, after k pongs, between ping and pong), slow (latency above two "
         "intervals), with an optional loss or stop at a drawn time; and "
         "reconnect_silent: the first connection is cut at a drawn time, a "
-        "replacement is negotiated and the peer goes silent on it. "
+        "replacement is negotiated and the peer goes silent on it; one_way: "
+        "from a drawn time nothing the Leader sends arrives (pings "
+        "unanswered) while the Follower's data records keep arriving every "
+        "drawn gap. "
         "Non-trivial: at least one ping/pong round trip happened and (a "
         "stall window was applied or a drop/stop occurred). Distinct: "
         "event-log digests among non-trivial runs.")
@@ -48,7 +51,7 @@ INTERVALS = (0.5, 1.0, 5.0, 30.0, 60.0)
 def configs(tier):
     return [{"regime": r} for r in ("responsive", "silent", "slow",
                                     "responsive", "silent", "stop", "loss",
-                                    "reconnect_silent")]
+                                    "reconnect_silent", "one_way")]
 
 
 def run_one(seed, tape, opts):
@@ -150,6 +153,8 @@ def run_one(seed, tape, opts):
                 sim.note("fault.cut")
                 sim.net.cut(eL.link)
         R.callLater(cut_at, do_cut)
+    if regime == "one_way":
+        return _one_way(seed, tape, w, interval, first_conn, eL, t_conn)
     if regime == "reconnect_silent":
         return _reconnect_silent(seed, tape, w, interval, first_conn, eL,
                                  t_conn)
@@ -235,6 +240,91 @@ def run_one(seed, tape, opts):
 
 def _timer_pending(m):
     return m._timer is not None and m._timer.active()
+
+
+def _one_way(seed, tape, w, interval, first_conn, eL, t_conn):
+    """Asymmetric path death: from a drawn time on nothing the Leader sends
+    reaches the Follower any more (so its pings go unanswered) while the
+    Follower's own data keeps arriving at the Leader. Pongs, not other
+    records, are what 'answering' means: the Leader must still drop the
+    connection by the second expiry after the last answered ping."""
+    sim = w.sim
+    L, F = w.leader, w.follower
+    R = sim.reactor
+    viol = []
+    L.listen("data")
+    rec = F.connect("data")
+    sim.run(3000, until=lambda: rec[1] != "pending", max_time=interval / 4)
+    if rec[1] != "ok":
+        raise HarnessError("setup: subchannel not opened: %r" % (rec[1],))
+    p = rec[2]
+    eF = eL.peer
+    pongs = [sim.now()]
+    real_pong = L.m.handle_pong
+
+    def handle_pong(ping_id):
+        pongs.append(sim.now())
+        return real_pong(ping_id)
+    L.m.handle_pong = handle_pong
+    dead_at = interval * tape.pick((0.05, 0.5, 0.95, 1.0, 1.05, 1.6, 2.0, 2.4,
+                                    3.3), "dead_at")
+    gap = interval * tape.pick((0.05, 0.2, 0.45, 0.9), "data_gap")
+    horizon = dead_at + 6 * interval
+    nwrites = [0]
+
+    def write():
+        if not p.lost and eF.alive and sim.now() - t_conn < horizon:
+            p.transport.write(b"D" * 20)
+            nwrites[0] += 1
+            R.callLater(gap, write)
+    R.callLater(gap * tape.pick((0.1, 0.5, 1.0), "phase"), write)
+
+    def die():
+        if eF.alive:
+            eF.stalled = True       # Leader -> Follower bytes never arrive
+            sim.ev("one_way_dead")
+            sim.note("fault.stall")
+    R.callLater(dead_at, die)
+    dropped = [None]
+
+    def watch():
+        if dropped[0] is None and (not eL.alive or eL.transport.disconnecting):
+            dropped[0] = sim.now()
+            sim.ev("leader_dropped")
+    sim.after_step = watch
+    r2 = sim.run(60000, until=lambda: dropped[0] is not None,
+                 max_time=horizon)
+    watch()
+    w.finish()
+    t_last = max(pongs)
+    if dropped[0] is None:
+        viol.append({"key": "C16.unanswered_not_dropped", "clause": "a "
+                     "connection on which the other side stops answering is "
+                     "dropped by the Leader no later than the second timer "
+                     "expiry after the last answered ping",
+                     "detail": "interval %.1f: Leader->Follower path dead "
+                     "from t+%.2f, Follower data every %.2f s still arriving; "
+                     "last pong at t+%.2f; not dropped by t+%.2f (%s)" %
+                     (interval, dead_at, gap, t_last - t_conn,
+                      sim.now() - t_conn, r2)})
+    elif dropped[0] > t_last + 3 * interval + 1e-6:
+        viol.append({"key": "C16.unanswered_dropped_late", "clause":
+                     "dropped under three ping intervals after the last "
+                     "answered ping", "detail": "interval %.1f: last pong "
+                     "t+%.2f, dropped t+%.2f" % (interval, t_last - t_conn,
+                                                 dropped[0] - t_conn)})
+    return {"violation": viol[0] if viol else None,
+            "nontrivial": nwrites[0] > 0 and len(pongs) > 1,
+            "digest": sim.hexdigest(), "trace": sim.trace,
+            "stats": {"steps": sim.steps, "sim_s": sim.now() - 1000.0,
+                      "notes": sim.notes},
+            "sample": {"seed": seed, "regime": "one_way",
+                       "interval": interval, "dead_at": dead_at,
+                       "data_gap": gap, "writes": nwrites[0],
+                       "pongs": len(pongs) - 1,
+                       "last_pong": round(t_last - t_conn, 3),
+                       "dropped_at": None if dropped[0] is None else
+                       round(dropped[0] - t_conn, 3)}}
 
 
 def _reconnect_silent(seed, tape, w, interval, first_conn, eL, t_conn):
